@@ -129,11 +129,13 @@ func codeFromState(state *state) (*Code, error) {
 		if err != nil {
 			return nil, err
 		}
+		// Only the code of a function has a function ID. The entrypoint code is
+		// called "__main__", but a function may be given that name as well.
 		code := &Code{
 			id:           c.ID,
 			parent:       parent,
 			name:         c.Name,
-			isNamed:      c.Name != "" && c.Name != "__main__",
+			isNamed:      c.Name != "" && c.FunctionID != "",
 			functionID:   c.FunctionID,
 			symbols:      codeSymbols,
 			instructions: CopyInstructions(c.Instructions),
